@@ -269,7 +269,10 @@ let () =
                 | f :: _ -> String.sub f 2 (String.length f - 2) | [] -> "") in
             let opt_name n = if n = "_" || n = "" then None else Some (coq_string n) in
             List.iter (fun cfg ->
+                let is_op = cfg = "RESET" || (String.length cfg > 5 && (String.sub cfg 0 5 = "DELB:" || String.sub cfg 0 5 = "DELC:")) in
                 if cfg = "RESET" then st := reset6 !st
+                else if is_op && String.sub cfg 0 5 = "DELB:" then st := delete_bias6 (coq_string (String.sub cfg 5 (String.length cfg - 5))) !st
+                else if is_op then st := delete_cv6 (coq_string (String.sub cfg 5 (String.length cfg - 5))) !st
                 else begin
                   let tokfield tag = (match field cfg tag with "" -> None | v -> tok_of_text v) in
                   let files = List.map (fun f -> if f = "missing" then None else if f = "empty" then Some [] else
@@ -297,7 +300,7 @@ let () =
                 let reg = String.concat "/" (List.map (fun (n, v) -> ocaml_string n ^ ":" ^ (match v with
                     | None -> "NULL" | Some [] -> "empty" | Some l -> String.concat "," (List.map string_of_z l))) s.q_reg) in
                 outs := (Printf.sprintf "%s cv=%s bias=%s reg=%s named=%s act=%s traj=%s restart=%s crash=%d"
-                           (if cfg = "RESET" then "reset" else if s.q_err then "reject" else "accept")
+                           (if is_op then "reset" else if s.q_err then "reject" else "accept")
                            (String.concat "," (List.map ocaml_string s.q_cvs))
                            (String.concat "," (List.map (fun ((n, _), _) -> ocaml_string n) s.q_biases))
                            reg
